@@ -97,7 +97,19 @@ impl Hist {
 fn out_script(coin: &str, keys: &[Vec<u8>], rng: &mut Rng, addressless_ok: bool) -> Vec<u8> {
     let btc = coin == "bitcoin" || coin == "testnet3";
     let key = rng.pick(keys).clone();
-    let h = hash160_(&key);
+    let mut h = hash160_(&key);
+    // a tenth of the hash-carrying outputs pay to hashes that are tiny integers or share all but their last
+    // byte (addresses with a long common prefix, like the well-known burn addresses)
+    if rng.chance(1, 10) {
+        let mut z = [0u8; 20];
+        if rng.coin() {
+            z[19] = rng.below(4) as u8;
+        } else {
+            z.copy_from_slice(&hash160_(&keys[0]));
+            z[19] = rng.below(4) as u8;
+        }
+        h = z;
+    }
     let k = rng.below(if addressless_ok { 10 } else { 4 });
     match k {
         0 | 1 => p2pkh(&h),
@@ -282,6 +294,38 @@ fn random_history(prop: &str, coin: &str, n_tx: usize, reuse: bool, rng: &mut Rn
                 if let Some((t, _)) = hist.live.first().cloned() {
                     let same: Vec<(Vec<u8>, u32)> = hist.live.iter().filter(|(x, _)| *x == t).cloned().collect();
                     let ins = same.iter().map(|p| Hist::spend_input(p, rng)).collect();
+                    let tx = create_tx(&mut hist, coin, &keys, 1, rng, ins, true);
+                    hist.add(tx, true, coin);
+                }
+            }
+            9 if !hist.live.is_empty() && rng.coin() => {
+                // a foreign outpoint that is *almost* a live one: one byte changed, two bytes changed by the same
+                // delta at a distance of 4/8/16 (they cancel in word-wise XOR folds), two bytes swapped, halves
+                // swapped, or the right txid with another index
+                let (t, idx) = rng.pick(&hist.live).clone();
+                let mut x = t.clone();
+                let mut xi = idx;
+                match rng.below(5) {
+                    0 => {
+                        let i = rng.usize(0, 31);
+                        x[i] ^= 1 << rng.below(8);
+                    }
+                    1 => {
+                        let d = *rng.pick(&[4usize, 8, 16]);
+                        let i = rng.usize(0, 31 - d);
+                        let delta = rng.range(1, 255) as u8;
+                        x[i] ^= delta;
+                        x[i + d] ^= delta;
+                    }
+                    2 => {
+                        let (i, j) = (rng.usize(0, 31), rng.usize(0, 31));
+                        x.swap(i, j);
+                    }
+                    3 => x.rotate_left(16),
+                    _ => xi = idx.wrapping_add(*rng.pick(&[1u32, 256, 65_536, 1 << 24])),
+                }
+                if !(x == t && xi == idx) && !hist.live.iter().any(|(a, b)| *a == x && *b == xi) {
+                    let ins = vec![Hist::spend_input(&(x, xi), rng)];
                     let tx = create_tx(&mut hist, coin, &keys, 1, rng, ins, true);
                     hist.add(tx, true, coin);
                 }
